@@ -213,6 +213,24 @@ func genC01(seed uint64, idx int) *Plan {
 		}
 		p.Resume = false
 	}
+	if idx%9 == 4 {
+		// public names with a label of digits, or one that looks like a hex
+		// number, in front (a year, a shard number); only the LAST label of a
+		// name decides whether it could be taken for an address
+		old := p.Keys[0].PublicName
+		if i := strings.Index(old, "."); strings.HasPrefix(old, "pub") && i > 0 {
+			old = old[i+1:]
+		}
+		nw := []string{"2024.cdn.example.com", "cdn.0xcafe.example.net", "7.shard.example.org", "0x1f.12.example.com"}[(idx/9)%4]
+		for i := range p.Keys {
+			if strings.HasSuffix(p.Keys[i].PublicName, old) {
+				p.Keys[i].PublicName = strings.TrimSuffix(p.Keys[i].PublicName, old) + nw
+			}
+		}
+		if strings.HasSuffix(p.Stale.PublicName, old) {
+			p.Stale.PublicName = strings.TrimSuffix(p.Stale.PublicName, old) + nw
+		}
+	}
 	p.NoCCS = idx%4 == 1
 	p.CopyUp = idx%3 == 2 && p.Forward
 	if idx%4 == 3 && p.Forward {
